@@ -44,6 +44,8 @@ TEXT = u'''Feature: F
     Examples: First <a>
       | a | b | t |
       | A1 | B1 | T1 |
+      # a comment and a blank line between the rows
+
       | A2 | B2 | T2 |
 
     @ex2 @ex3
@@ -108,6 +110,23 @@ TEXT_PLAIN_NAMES = TEXT.replace("Given step with <a>", "Given step with a table"
                        .replace("And total > <a> but -> <b> ok", "And total > a but -> b ok")
 
 
+def row_lines(text):
+    """Line numbers of the Examples data rows, read from the text itself (not from the parsed model)."""
+    out, state = [], None
+    for no, line in enumerate(text.splitlines(), 1):
+        t = line.strip()
+        if t.startswith("Examples"):
+            state = "header"
+        elif state and t.startswith("|"):
+            if state == "header":
+                state = "rows"
+            else:
+                out.append(no)
+        elif state and t and not t.startswith("#") and not t.startswith("@"):
+            state = None
+    return out
+
+
 def _parse(variant=None):
     from behave.parser import parse_feature
     f = parse_feature(TEXT_PLAIN_NAMES if variant == "plain-names" else TEXT, filename="o.feature")
@@ -151,6 +170,9 @@ def h_expand(sx):
                 "names": [repr(sx.eval(s.name, m) if isinstance(s.name, SymChoice) and m is not None else s.name) for s in scenarios]}
     known = [("C06-F10", hostile)]
     sx.check(len(scenarios) == len(exp), "C06.one-scenario-per-row", detail=det)
+    true_lines = row_lines(TEXT_PLAIN_NAMES if p.get("variant") == "plain-names" else TEXT)
+    sx.check([sc.line for sc in scenarios] == true_lines, "C06.located-at-row-line",
+             detail=lambda m: dict(det(m), scenario_lines=[sc.line for sc in scenarios], row_lines_in_text=true_lines))
     for i, (sc, e) in enumerate(zip(scenarios, exp)):
         sym = isinstance(e, SymChoice)
         g = lambda key: (e._apply(lambda d: d[key]) if sym else e[key])
